@@ -12,6 +12,9 @@ CHECKS = {
  "C18": ("exploration", "bounded-exhaustive enumeration of env files from the line grammar and of all byte strings up to a length bound against a reference dotenv evaluator",
          "Every env file of 1..6 lines assembled from the documented line grammar (alphabet shrinking with length), with and without trailing newline and under 3 lookup functions, plus every byte string over a 12-symbol alphabet up to length 6 (7 thorough) and every distance-1 edit of the repository fixtures, is parsed by the real dotenv.ParseWithLookup and compared with a reference evaluator that classifies each input as defined / must-error / outside the documented sub-language.",
          "Trusted: refmodel/dotenvref (Appendix A.2) and refmodel/interp. Inputs the statement does not define are checked for no-panic and map-xor-error only.", "§4 C18", "E3 E5"),
+ "C02": ("model_checking", "stateless exploration of the implementation's map-iteration nondeterminism (runtime overlay owns hash seeds and every mapiterinit start; all executions with <=1 dynamic / <=1 site deviation and all uniform rotations), plus exhaustive declaration-order permutations and load histories",
+         "Go's map randomness is the scheduler here: a patched runtime (build overlay, no source hooks) lets the harness answer every map-iteration start in compose-go, yaml.v3, mapstructure, reflect. For every corpus input the check runs the canonical execution, every uniform rotation, every execution deviating at one dynamic iteration point, and every execution deviating at all instances of one iteration site with every bucket/offset start, and demands identical outcome class, deep-equal project and byte-identical YAML/JSON. Declaration-order permutations of the YAML text and every history of <=2 earlier loads (fresh subprocess each) are enumerated too.",
+         "Trusted: the runtime patch (engine/mapctl, checked by anchors against go1.23.5) and the replay check (canonical run twice, identical point count and output). Orders needing >=2 independent deviations are outside the bound.", "§3 E2, §4 C02", "E2 E5"),
 }
 
 NOT_YET = {}
@@ -48,6 +51,7 @@ def main():
             "add_only": True,
         },
         "engines": [
+            {"name": "E2 mapctl", "path": "engine/mapctl", "serves_properties": ["C02"], "kind_free_text": "go build -overlay of runtime/map*.go, rand.go, alg.go: pins hash seeds, answers every map iteration start from the harness; stateless exploration of iteration-order choice vectors"},
             {"name": "E5 workers", "path": "harness/core", "serves_properties": sorted(CHECKS), "kind_free_text": "crash-containing sharded worker processes, parent merges outcomes, known-findings classification, replay artefacts"},
         ],
         "checks": checks,
